@@ -192,6 +192,75 @@ def layout_zoo():
     return out
 
 
+def staged_text(stages, main, style=0):
+    """program text in which the set of type aliases changes between items: stages = [(alias definitions, [functions])],
+    then `main`; an alias definition (name, type) is printed with the aliases in force before it (chains), a name that is
+    defined again simply gets its new meaning from there on (the language lets a later definition win)"""
+    env = {}
+    out = []
+
+    def printer():
+        inv = {}
+        for n, t in env.items():
+            inv.setdefault(t, n)
+        pr = Printer(None, style)
+        pr.al = inv
+        return pr
+
+    for defs, fns in stages:
+        for n, t in defs:
+            env.pop(n, None)
+            out.append("type %s = %s;" % (n, printer().ty(t)))
+            env[n] = t
+        pr = printer()
+        for f in fns:
+            ps = ", ".join("%s: %s" % (a, pr.ty(t)) for a, t in f.params)
+            ret = "" if f.ret == UNIT else " -> %s" % pr.ty(f.ret)
+            out.append("fn %s(%s)%s %s" % (f.name, ps, ret, pr.block(f.body, 0)))
+    out.append("fn main() %s" % printer().block(main, 0))
+    return "\n\n".join(out) + "\n"
+
+
+def alias_zoo():
+    """aliases in every type position, chains of aliases, and an alias name that is defined a second time with another
+    meaning between two uses of the same composite annotation; the specification is the alias-free program"""
+    from ..observe import observe, Fresh
+    U8, U16, U4 = U(8), U(16), U(4)
+    out = []
+    P8, P16 = TUP(U8, U8), TUP(U16, U16)
+    low = FnDef("low", [("p", P8)], U8, Block([Let(PTuple([PVar("a"), PVar("b")]), P8, Var("p", P8))], JetCall("xor_8", [Var("a", U8), Var("b", U8)], U8)))
+    opt = FnDef("opt", [("o", OPT(U8))], U8, Block([], Match(Var("o", OPT(U8)), Arm("none", Lit(U8, 9)), Arm("some", Var("x", U8), "x", U8))))
+    main = Block([
+        Let("q", P16, TupleE([Wit("X", U16), Lit(U16, 300)])),
+        Let(PTuple([PVar("c"), PVar("d")]), P16, Var("q", P16)),
+        Let("r", U8, Call(low, [TupleE([Lit(U8, 1), Wit("Y", U8)])])),
+        Let("m", OPT(U16), SomeE(Var("d", U16))),
+        Let("s", U8, Call(opt, [Wit("O", OPT(U8))])),
+    ] + observe(TupleE([Var("c", U16), Var("d", U16), Var("r", U8), Var("s", U8)]), TUP(U16, U16, U8, U8), "E", Fresh("o"))
+      + observe(Var("m", OPT(U16)), OPT(U16), "E2", Fresh("p")))
+    prog = Program([low, opt], main)
+    out.append(("redefined-between-uses", prog, staged_text([([("Word", U8)], [low, opt]), ([("Word", U16)], [])], main)))
+    out.append(("redefined-before-first-use", prog, staged_text([([("Word", U16), ("Word", U8)], [low, opt]), ([("Word", U16), ("Other", U8)], [])], main)))
+    # chain: B and C are fixed when they are defined; redefining A afterwards must not change them
+    B, C = TUP(U8, U8), OPT(TUP(U8, U8))
+    f = FnDef("first", [("c", C)], U8, Block([], Match(Var("c", C), Arm("none", Lit(U8, 0)), Arm("some", Block([Let(PTuple([PVar("a"), PIgnore()]), B, Var("b", B))], Var("a", U8)), "b", B))))
+    main2 = Block([
+        Let("w", TUP(U16, B), TupleE([Wit("X", U16), TupleE([Wit("Y", U8), Lit(U8, 2)])])),
+        Let(PTuple([PVar("x"), PVar("y")]), TUP(U16, B), Var("w", TUP(U16, B))),
+        Let("z", U8, Call(f, [SomeE(Var("y", B))])),
+        Let("l", LIST(U16, 4), ListE([Var("x", U16), Lit(U16, 4660)], U16, 4)),
+        Let("arr", ARR(U16, 3), ArrayE([Var("x", U16), Var("x", U16), Lit(U16, 1)], U16)),
+        Let("ei", EITHER(U16, B), LeftE(Var("x", U16), B)),
+        Let("k", U16, Cast(TupleE([Var("z", U8), Lit(U8, 5)]), U16)),
+        Let("ul", U16, UnwrapLeft(Var("ei", EITHER(U16, B)))),
+    ] + observe(TupleE([Var("z", U8), Var("k", U16), Var("ul", U16)]), TUP(U8, U16, U16), "E", Fresh("o"))
+      + observe(Var("l", LIST(U16, 4)), LIST(U16, 4), "E2", Fresh("p")) + observe(Var("arr", ARR(U16, 3)), ARR(U16, 3), "E3", Fresh("q")))
+    prog2 = Program([f], main2)
+    out.append(("chain-then-redefined", prog2, staged_text([([("A", U8), ("B", B), ("C", C)], [f]), ([("A", U16)], [])], main2)))
+    out.append(("chain-every-position", prog2, staged_text([([("A", U8), ("B", B), ("C", C), ("W", U16), ("L", LIST(U16, 4)), ("Arr", ARR(U16, 3)), ("Ei", EITHER(U16, B))], [f])], main2)))
+    return out
+
+
 def cases(tier, seed):
     rng = random.Random(seed)
     base = [c for c in c01.cases("quick", seed) if not c.mut and not c.expect_reject]
@@ -222,6 +291,19 @@ def cases(tier, seed):
         out.append(E.Case("rename-%d-%s" % (i, c.cid), p2, text=text, validate=(i % 3 == 0),
                           tags={"variant": tag, "from": c.cid, "seed": seed,
                                 "names": sorted(set(list(maps["var"].values()) + list(maps["fn"].values())))[:8]}))
+    # alias zoo (the names stay as written: the point is what the alias names mean where)
+    for name, prog, text in alias_zoo():
+        out.append(E.Case("aliaszoo-%s" % name, prog, text=text, validate=True, tags={"variant": "aliases: " + name, "seed": seed}))
+    # the same with the two meanings swapped half-way on sampled programs that have functions
+    swapped = 0
+    for i, c in enumerate(base):
+        if swapped >= (12 if tier == "quick" else 80) or not c.prog.fns:
+            continue
+        a1 = [("Fee", U(8)), ("Stamp", U(16)), ("Maybe", OPT(U(8)))]
+        a2 = [("Fee", U(16)), ("Stamp", U(8)), ("Maybe", OPT(U(16)))]
+        out.append(E.Case("aliasswap-%d-%s" % (i, c.cid), c.prog, text=staged_text([(a1, c.prog.fns), (a2, [])], c.prog.main), validate=False,
+                          tags={"variant": "aliases: meanings swapped between the functions and main", "from": c.cid, "seed": seed}))
+        swapped += 1
     # layout zoo: every bracketed construct, in all layouts (the renaming is applied too)
     for name, prog in layout_zoo():
         names = collect_names(prog)
